@@ -271,6 +271,37 @@ theorem compileBL_spec (ooo : Bool) : (vs : List View) → ∀ (esc : Bool) (pos
     exact ⟨g1, by rw [d1, d2]; simp⟩
 end
 
+/-- a view whose value is rendered later (a pending `Suspend`, a `<Suspense>` boundary): the two branches of
+    `to_html_async_with_buf`, when the guess is right -/
+theorem pending_spec (ooo : Bool) (fut : Stream.Fut) (v : View) (esc : Bool) (pos : Position)
+    (h : (if ooo = true then esc && AgreeB ooo true v pos && decide (after true v pos = pos)
+          else AgreeB ooo esc v pos && decide (after esc v pos = .nextChild)) = true) :
+    Good ooo (if ooo = true then
+        (([Op.nextId, Op.fallback marker, Op.ooo fut true (compileB ooo true v pos (fun _ => [])) none], pos) : List Op × Position)
+      else ([Op.nextId, Op.async fut (compileB ooo esc v pos (fun _ => []))], Position.nextChild)).1 ∧
+    docOf ooo (if ooo = true then
+        (([Op.nextId, Op.fallback marker, Op.ooo fut true (compileB ooo true v pos (fun _ => [])) none], pos) : List Op × Position)
+      else ([Op.nextId, Op.async fut (compileB ooo esc v pos (fun _ => []))], Position.nextChild)).1 = html esc v pos ∧
+    (if ooo = true then
+        (([Op.nextId, Op.fallback marker, Op.ooo fut true (compileB ooo true v pos (fun _ => [])) none], pos) : List Op × Position)
+      else ([Op.nextId, Op.async fut (compileB ooo esc v pos (fun _ => []))], Position.nextChild)).2 = after esc v pos := by
+  cases ooo with
+  | true =>
+    simp only [if_true, Bool.and_eq_true, decide_eq_true_eq] at h ⊢
+    obtain ⟨⟨he, ha⟩, hp⟩ := h
+    subst he
+    obtain ⟨gb, db⟩ := compileB_spec true v true pos (fun _ => []) ha (Good.nil true)
+    refine ⟨Good.oooCons _ _ gb (Good.nil true), ?_, hp.symm⟩
+    rw [docOf_oooCons, db, docOf_nil]
+    simp
+  | false =>
+    simp only [Bool.false_eq_true, if_false, Bool.and_eq_true, decide_eq_true_eq] at h ⊢
+    obtain ⟨ha, hp⟩ := h
+    obtain ⟨gb, db⟩ := compileB_spec false v esc pos (fun _ => []) ha (Good.nil false)
+    refine ⟨Good.asyncCons _ gb (Good.nil false), ?_, hp.symm⟩
+    rw [docOf_asyncCons, db, docOf_nil]
+    simp
+
 /-! ### the view at render time (`compile`) -/
 
 mutual
@@ -342,29 +373,18 @@ theorem compile_spec (ooo : Bool) (d0 : List Nat) : (v : View) → ∀ (esc : Bo
     split
     · rename_i hn
       simp only [hn] at h
-      exact compile_spec ooo d0 v esc pos h
+      by_cases hb : isBoundary ty = true
+      · simp only [hb, if_true] at h ⊢
+        exact pending_spec ooo boundaryFut v esc pos h
+      · simp only [hb, Bool.false_eq_true, if_false] at h ⊢
+        exact compile_spec ooo d0 v esc pos h
     · rename_i f hf
       simp only [hf] at h
       by_cases hd : d0.contains f = true
       · simp only [hd, if_true] at h ⊢
         exact compile_spec ooo d0 v esc pos h
       · simp only [hd, Bool.false_eq_true, if_false] at h ⊢
-        cases ooo with
-        | true =>
-          simp only [if_true, Bool.and_eq_true, decide_eq_true_eq] at h ⊢
-          obtain ⟨⟨he, ha⟩, hp⟩ := h
-          subst he
-          obtain ⟨gb, db⟩ := compileB_spec true v true pos (fun _ => []) ha (Good.nil true)
-          refine ⟨Good.oooCons _ _ gb (Good.nil true), ?_, hp.symm⟩
-          rw [docOf_oooCons, db, docOf_nil]
-          simp
-        | false =>
-          simp only [Bool.false_eq_true, if_false, Bool.and_eq_true, decide_eq_true_eq] at h ⊢
-          obtain ⟨ha, hp⟩ := h
-          obtain ⟨gb, db⟩ := compileB_spec false v esc pos (fun _ => []) ha (Good.nil false)
-          refine ⟨Good.asyncCons _ gb (Good.nil false), ?_, hp.symm⟩
-          rw [docOf_asyncCons, db, docOf_nil]
-          simp
+        exact pending_spec ooo (suspFut f) v esc pos h
 theorem compileL_spec (ooo : Bool) (d0 : List Nat) : (vs : List View) → ∀ (esc : Bool) (pos : Position),
     AgreeL ooo d0 esc vs pos = true →
     Good ooo (compileL ooo d0 esc vs pos).1 ∧ docOf ooo (compileL ooo d0 esc vs pos).1 = htmlL esc vs pos ∧
@@ -401,15 +421,25 @@ theorem compile_doc (ooo : Bool) (d0 : List Nat) (v : View) (esc : Bool) (pos : 
 theorem all_append_sync (a b : List Op) : (a ++ b).all isSyncOp = (a.all isSyncOp && b.all isSyncOp) := by
   simp [List.all_append]
 
+theorem boundaries_any {ty : Ty} {v : View} (h : boundaries (.any ty v) = 0) : isBoundary ty = false ∧ boundaries v = 0 := by
+  simp only [boundaries] at h
+  by_cases hb : isBoundary ty = true
+  · simp [hb] at h
+  · exact ⟨by simpa using hb, by simpa [hb] using h⟩
+
+theorem boundariesL_cons {v : View} {vs : List View} (h : boundariesL (v :: vs) = 0) : boundaries v = 0 ∧ boundariesL vs = 0 := by
+  simp only [boundariesL] at h
+  omega
+
 mutual
-/-- every future ready at render time: the view only calls `push_sync` -/
+/-- every future ready at render time, no `<Suspense>` boundary: the view only calls `push_sync` -/
 theorem compile_allSync (ooo : Bool) (d0 : List Nat) : (v : View) → ∀ (esc : Bool) (pos : Position),
-    (∀ f ∈ fidsOf v, d0.contains f = true) → (compile ooo d0 esc v pos).1.all isSyncOp = true
-  | .text _, _, _, _ => by simp [compile, isSyncOp]
-  | .unit, _, _, _ => by simp [compile, isSyncOp]
-  | .onone, _, _, _ => by simp [compile, isSyncOp]
-  | .elem tag as c, esc, pos, h => by
-    have hc := compile_allSync ooo d0 c (escKids tag) .firstChild (by simpa [fidsOf] using h)
+    (∀ f ∈ fidsOf v, d0.contains f = true) → boundaries v = 0 → (compile ooo d0 esc v pos).1.all isSyncOp = true
+  | .text _, _, _, _, _ => by simp [compile, isSyncOp]
+  | .unit, _, _, _, _ => by simp [compile, isSyncOp]
+  | .onone, _, _, _, _ => by simp [compile, isSyncOp]
+  | .elem tag as c, esc, pos, h, hb => by
+    have hc := compile_allSync ooo d0 c (escKids tag) .firstChild (by simpa [fidsOf] using h) (by simpa [boundaries] using hb)
     have hk : (kidsOps tag (compile ooo d0 (escKids tag) c .firstChild).1).all isSyncOp = true := by
       unfold kidsOps
       split
@@ -421,62 +451,75 @@ theorem compile_allSync (ooo : Bool) (d0 : List Nat) : (v : View) → ∀ (esc :
     · split
       · simp [isSyncOp, List.all_append, hk]
       · simp [isSyncOp]
-  | .tuple vs, esc, pos, h => by simpa [compile] using compileL_allSync ooo d0 vs esc pos (by simpa [fidsOf] using h)
-  | .osome v, esc, pos, h => by simpa [compile] using compile_allSync ooo d0 v esc pos (by simpa [fidsOf] using h)
-  | .either _ _ v, esc, pos, h => by simpa [compile] using compile_allSync ooo d0 v esc pos (by simpa [fidsOf] using h)
-  | .vec vs, esc, pos, h => by
-    have := compileL_allSync ooo d0 vs esc pos (by simpa [fidsOf] using h)
+  | .tuple vs, esc, pos, h, hb => by
+    simpa [compile] using compileL_allSync ooo d0 vs esc pos (by simpa [fidsOf] using h) (by simpa [boundaries] using hb)
+  | .osome v, esc, pos, h, hb => by
+    simpa [compile] using compile_allSync ooo d0 v esc pos (by simpa [fidsOf] using h) (by simpa [boundaries] using hb)
+  | .either _ _ v, esc, pos, h, hb => by
+    simpa [compile] using compile_allSync ooo d0 v esc pos (by simpa [fidsOf] using h) (by simpa [boundaries] using hb)
+  | .vec vs, esc, pos, h, hb => by
+    have := compileL_allSync ooo d0 vs esc pos (by simpa [fidsOf] using h) (by simpa [boundaries] using hb)
     simp only [compile, List.all_append, this, Bool.true_and]
     split <;> simp [isSyncOp]
-  | .any ty v, esc, pos, h => by
+  | .any ty v, esc, pos, h, hb => by
     have hv : ∀ f ∈ fidsOf v, d0.contains f = true := fun f hf => h f (by simp [fidsOf, hf])
+    obtain ⟨hnb, hbv⟩ := boundaries_any hb
     simp only [compile]
     split
-    · exact compile_allSync ooo d0 v esc pos hv
+    · simp only [hnb, Bool.false_eq_true, if_false]
+      exact compile_allSync ooo d0 v esc pos hv hbv
     · rename_i f hf
       have : d0.contains f = true := h f (by simp [fidsOf, hf])
       simp only [this, if_true]
-      exact compile_allSync ooo d0 v esc pos hv
+      exact compile_allSync ooo d0 v esc pos hv hbv
 theorem compileL_allSync (ooo : Bool) (d0 : List Nat) : (vs : List View) → ∀ (esc : Bool) (pos : Position),
-    (∀ f ∈ fidsOfL vs, d0.contains f = true) → (compileL ooo d0 esc vs pos).1.all isSyncOp = true
-  | [], _, _, _ => by simp [compileL]
-  | v :: vs, esc, pos, h => by
+    (∀ f ∈ fidsOfL vs, d0.contains f = true) → boundariesL vs = 0 → (compileL ooo d0 esc vs pos).1.all isSyncOp = true
+  | [], _, _, _, _ => by simp [compileL]
+  | v :: vs, esc, pos, h, hb => by
+    obtain ⟨h1, h2⟩ := boundariesL_cons hb
     simp only [compileL, List.all_append, Bool.and_eq_true]
-    exact ⟨compile_allSync ooo d0 v esc pos (fun f hf => h f (by simp [fidsOfL, hf])),
-           compileL_allSync ooo d0 vs esc _ (fun f hf => h f (by simp [fidsOfL, hf]))⟩
+    exact ⟨compile_allSync ooo d0 v esc pos (fun f hf => h f (by simp [fidsOfL, hf])) h1,
+           compileL_allSync ooo d0 vs esc _ (fun f hf => h f (by simp [fidsOfL, hf])) h2⟩
 end
 
 mutual
-/-- every future ready at render time: no guess is made -/
+/-- every future ready at render time, no `<Suspense>` boundary: no guess is made -/
 theorem agree_of_ready (ooo : Bool) (d0 : List Nat) : (v : View) → ∀ (esc : Bool) (pos : Position),
-    (∀ f ∈ fidsOf v, d0.contains f = true) → Agree ooo d0 esc v pos = true
-  | .text _, _, _, _ => rfl
-  | .unit, _, _, _ => rfl
-  | .onone, _, _, _ => rfl
-  | .elem tag as c, esc, pos, h => by
+    (∀ f ∈ fidsOf v, d0.contains f = true) → boundaries v = 0 → Agree ooo d0 esc v pos = true
+  | .text _, _, _, _, _ => rfl
+  | .unit, _, _, _, _ => rfl
+  | .onone, _, _, _, _ => rfl
+  | .elem tag as c, esc, pos, h, hb => by
     simp only [Agree, Bool.or_eq_true, Bool.and_eq_true]
-    exact Or.inr ⟨agree_of_ready ooo d0 c _ _ (by simpa [fidsOf] using h),
-      Or.inr (compile_allSync ooo d0 c _ _ (by simpa [fidsOf] using h))⟩
-  | .tuple vs, esc, pos, h => by simpa [Agree] using agreeL_of_ready ooo d0 vs esc pos (by simpa [fidsOf] using h)
-  | .osome v, esc, pos, h => by simpa [Agree] using agree_of_ready ooo d0 v esc pos (by simpa [fidsOf] using h)
-  | .either _ _ v, esc, pos, h => by simpa [Agree] using agree_of_ready ooo d0 v esc pos (by simpa [fidsOf] using h)
-  | .vec vs, esc, pos, h => by simpa [Agree] using agreeL_of_ready ooo d0 vs esc pos (by simpa [fidsOf] using h)
-  | .any ty v, esc, pos, h => by
+    exact Or.inr ⟨agree_of_ready ooo d0 c _ _ (by simpa [fidsOf] using h) (by simpa [boundaries] using hb),
+      Or.inr (compile_allSync ooo d0 c _ _ (by simpa [fidsOf] using h) (by simpa [boundaries] using hb))⟩
+  | .tuple vs, esc, pos, h, hb => by
+    simpa [Agree] using agreeL_of_ready ooo d0 vs esc pos (by simpa [fidsOf] using h) (by simpa [boundaries] using hb)
+  | .osome v, esc, pos, h, hb => by
+    simpa [Agree] using agree_of_ready ooo d0 v esc pos (by simpa [fidsOf] using h) (by simpa [boundaries] using hb)
+  | .either _ _ v, esc, pos, h, hb => by
+    simpa [Agree] using agree_of_ready ooo d0 v esc pos (by simpa [fidsOf] using h) (by simpa [boundaries] using hb)
+  | .vec vs, esc, pos, h, hb => by
+    simpa [Agree] using agreeL_of_ready ooo d0 vs esc pos (by simpa [fidsOf] using h) (by simpa [boundaries] using hb)
+  | .any ty v, esc, pos, h, hb => by
     simp only [Agree]
     have hv : ∀ f ∈ fidsOf v, d0.contains f = true := fun f hf => h f (by simp [fidsOf, hf])
+    obtain ⟨hnb, hbv⟩ := boundaries_any hb
     split
-    · exact agree_of_ready ooo d0 v esc pos hv
+    · simp only [hnb, Bool.false_eq_true, if_false]
+      exact agree_of_ready ooo d0 v esc pos hv hbv
     · rename_i f hf
       have : d0.contains f = true := h f (by simp [fidsOf, hf])
       simp only [this, if_true]
-      exact agree_of_ready ooo d0 v esc pos hv
+      exact agree_of_ready ooo d0 v esc pos hv hbv
 theorem agreeL_of_ready (ooo : Bool) (d0 : List Nat) : (vs : List View) → ∀ (esc : Bool) (pos : Position),
-    (∀ f ∈ fidsOfL vs, d0.contains f = true) → AgreeL ooo d0 esc vs pos = true
-  | [], _, _, _ => rfl
-  | v :: vs, esc, pos, h => by
+    (∀ f ∈ fidsOfL vs, d0.contains f = true) → boundariesL vs = 0 → AgreeL ooo d0 esc vs pos = true
+  | [], _, _, _, _ => rfl
+  | v :: vs, esc, pos, h, hb => by
+    obtain ⟨h1, h2⟩ := boundariesL_cons hb
     simp only [AgreeL, Bool.and_eq_true]
-    exact ⟨agree_of_ready ooo d0 v esc pos (fun f hf => h f (by simp [fidsOfL, hf])),
-           agreeL_of_ready ooo d0 vs esc _ (fun f hf => h f (by simp [fidsOfL, hf]))⟩
+    exact ⟨agree_of_ready ooo d0 v esc pos (fun f hf => h f (by simp [fidsOfL, hf])) h1,
+           agreeL_of_ready ooo d0 vs esc _ (fun f hf => h f (by simp [fidsOfL, hf])) h2⟩
 end
 
 /-! ## the harness' plan is a schedule -/
